@@ -346,6 +346,9 @@ func newSystem(w *world, mode *Mode) *System {
 		gpbft.WithMaxLookaheadRounds(5),
 		gpbft.WithCommitteeLookback(10),
 	}
+	if q := w.sc.QualityMultiplier; q != 0 {
+		opts = append(opts, gpbft.WithQualityDeltaMultiplier(q))
+	}
 	mk := func(i int) (*host, *gpbft.Participant) {
 		h := &host{sys: s, idx: i, id: actor(i), now: baseTime, sent: map[gpbft.Instant]int{},
 			inputs: map[uint64]*gpbft.ECChain{}, bases: map[uint64]*gpbft.TipSet{}, decided: map[uint64]*gpbft.Justification{}}
